@@ -9,7 +9,7 @@ import (
 )
 
 // concrete media types that can have a registered consumer
-var concrete = []string{"application/json", "text/plain", "text/csv", "application/xml", "a/b", "application/vnd.x+json", "image/png", "application/octet-stream"}
+var concrete = []string{"application/json", "text/plain", "text/csv", "application/xml", "a/b", "application/vnd.x+json", "image/png", "application/octet-stream", "application/json-patch+json", "a/bc"} // the last two start with the text of a default media type (r8)
 
 var wildcards = []string{"text/*", "application/*", "*/*", "*/*", "a/*", "image/*"}
 
@@ -170,6 +170,10 @@ func Gen(t *rapid.T) Case {
 			c.Regs = append(c.Regs, m)
 		}
 	}
+	if rapid.IntRange(0, 4).Draw(t, "consumer-registered-under-a-wildcard") == 0 {
+		// a consumer filed under a wildcard key is the consumer of nothing in particular: no body is decoded by it (r8)
+		c.Regs = append(c.Regs, rapid.SampledFrom([]string{"application/*", "*/*", "text/*"}).Draw(t, "wildcard-key"))
+	}
 	c.Method = rapid.SampledFrom(methods).Draw(t, "method")
 	c.NoBodyParam = rapid.IntRange(0, 3).Draw(t, "operation-without-body-parameter") == 0
 	if rapid.IntRange(0, 2).Draw(t, "sibling-operation") == 0 {
@@ -208,6 +212,11 @@ func Classify(c Case) (bool, []string) {
 	labels := []string{"method:" + c.Method}
 	if c.NoBodyParam {
 		labels = append(labels, "operation without body parameter")
+	}
+	for _, r := range c.Regs {
+		if strings.Contains(r, "*") {
+			labels = append(labels, "a consumer registered under a wildcard key")
+		}
 	}
 	list := effectiveList(c.Consumes, c.Default)
 	switch {
